@@ -227,9 +227,21 @@ func c12Run(tcpBeh, udpBeh []string, limit int, srv string) (res string, attempt
 		if c12DNS == nil {
 			return "config-error no DNS server", nil, 0
 		}
+		recs := ports
+		if strings.Contains(srv, "hole") {
+			// a "not available" record (target ".", port 0) with a priority between the first KDC's and the others'
+			// (or before the only one): the servers after it are still servers of the realm
+			recs = nil
+			for i, p := range ports {
+				if i == len(ports)-1 {
+					recs = append(recs, (2*i+1)<<16)
+				}
+				recs = append(recs, (2*i+2)<<16|p)
+			}
+		}
 		for _, tr := range []string{"tcp", "udp"} {
 			if strings.Contains(srv, tr) {
-				c12DNS.set("_kerberos._"+tr+"."+realm+".", ports)
+				c12DNS.set("_kerberos._"+tr+"."+realm+".", recs)
 			}
 		}
 	}
@@ -367,7 +379,7 @@ func TestC12(t *testing.T) {
 		if _, addrs, e := net.LookupSRV("kerberos", "tcp", "SELFTEST.VERIF"); e == nil || len(addrs) != 0 {
 			v.Note("DNS cases: the resolver does not reach the harness's server, left out")
 		} else {
-			for _, srv := range []string{"tcp", "udp", "tcp+udp"} {
+			for _, srv := range []string{"tcp", "udp", "tcp+udp", "tcp+udp+hole"} {
 				for _, l := range []int{1, 10, 1465} {
 					cases = append(cases, cse{tcp: []string{"a"}, udp: []string{"a"}, limit: l, srv: srv},
 						cse{tcp: []string{"r", "a"}, udp: []string{"a", "c"}, limit: l, srv: srv},
